@@ -94,9 +94,82 @@ def runOps (st : St) : List String → List String
       | _, _ => ["bad-op"]
     | _ => ["bad-op"]
 
+/-- the same histories against the model of the Stronghold-backed store; error kinds are collapsed -/
+def runOpsS (st : St) : List String → List String
+  | [] => []
+  | t :: ts =>
+    match t.splitOn ":" with
+    | ["g", kt, alg] =>
+      let r := generateS st.store (parseKt kt) (parseAlg alg)
+      (match r.2 with
+       | .ok o => s!"ok:{o.id}"
+       | .error _ => "err") :: runOpsS { st with store := r.1 } ts
+    | ["i", fam, pr, alg, dok, v] =>
+      match v.toNat? with
+      | none => ["bad-op"]
+      | some v =>
+        let priv := pr == "1" && fam != "oct"
+        let j : Jwk := ⟨parseFam fam, priv, parseJwkAlg alg, (if priv && dok == "1" then some (100 + v) else none), 100 + v⟩
+        let r := insertS st.store j
+        (match r.2 with
+         | .ok id => s!"ok:{id}"
+         | .error _ => "err") :: runOpsS { st with store := r.1 } ts
+    | ["s", n, data, fam, alg] =>
+      match n.toNat?, data.toNat? with
+      | some n, some d =>
+        let pk : Jwk := ⟨parseFam fam, false, parseJwkAlg alg, none, 0⟩
+        (match sign st.store n d pk with
+         | .ok sg => s!"ok:{sg.secret}"
+         | .error _ => "err") :: runOpsS st ts
+      | _, _ => ["bad-op"]
+    | ["d", n] =>
+      match n.toNat? with
+      | some n =>
+        let r := deleteS st.store n
+        (match r.2 with
+         | .ok _ => "ok"
+         | .error _ => "err") :: runOpsS { st with store := r.1 } ts
+      | none => ["bad-op"]
+    | ["e", n] =>
+      match n.toNat? with
+      | some n => (if «exists» st.store n then "1" else "0") :: runOpsS st ts
+      | none => ["bad-op"]
+    | ["ki", dg, n] =>
+      match dg.toNat?, n.toNat? with
+      | some dg, some n =>
+        let r := insertKid st.kids dg n
+        (match r.2 with
+         | .ok _ => "ok"
+         | .error _ => "err") :: runOpsS { st with kids := r.1 } ts
+      | _, _ => ["bad-op"]
+    | ["kg", dg] =>
+      match dg.toNat? with
+      | some dg =>
+        (match getKid st.kids dg with
+         | .ok k => s!"ok:{k}"
+         | .error _ => "err") :: runOpsS st ts
+      | none => ["bad-op"]
+    | ["kd", dg] =>
+      match dg.toNat? with
+      | some dg =>
+        let r := deleteKid st.kids dg
+        (match r.2 with
+         | .ok _ => "ok"
+         | .error _ => "err") :: runOpsS { st with kids := r.1 } ts
+      | none => ["bad-op"]
+    | ["kr", dg, n] =>
+      match dg.toNat?, n.toNat? with
+      | some dg, some n =>
+        let r := race st.kids dg ((List.range n).map (· + 201))
+        let oks := (r.2.filter (fun x => match x with | .ok _ => true | .error _ => false)).length
+        s!"ok={oks};fail={n - oks};consistent=1" :: runOpsS { st with kids := r.1 } ts
+      | _, _ => ["bad-op"]
+    | _ => ["bad-op"]
+
 def handle (args : List String) : String :=
   match args with
   | "hist" :: ops => " ".intercalate (runOps ⟨⟨[], 0⟩, []⟩ ops)
+  | "shist" :: ops => " ".intercalate (runOpsS ⟨⟨[], 0⟩, []⟩ ops)
   | _ => "bad-request"
 
 end Driver.C15
